@@ -59,7 +59,8 @@ def gen_template(rng, features: Dict[str, int]):
     from srctools.vmf import VMF, Entity, Output
     from srctools.math import Vec
     tmpl = VMF()
-    names = ['relay', 'Door_A', 'tgt', '@global', '!player', 'br']
+    # (the last five already carry what the affix of one of the instance names used below would add: they get it once more)
+    names = ['relay', 'Door_A', 'tgt', '@global', '!player', 'br', 'inst-relay', 'relay-inst', 'Inst_B-tgt', 'br-i2', 'i2-br']
     for _ in range(rng.randint(0, 3)):
         s = gen_vmf.gen_solid(rng, tmpl, features)
         s.vis_shown = rng.random() < 0.85
